@@ -79,9 +79,13 @@ func LoadRegistry() { regOnce.Do(func() { registry.LoadRegistry() }) }
 // no listing API).
 func RegistryFields() []ref.Field {
 	LoadRegistry()
-	if regFields != nil {
-		return regFields
-	}
+	regFieldsOnce.Do(fillRegFields)
+	return regFields
+}
+
+var regFieldsOnce sync.Once
+
+func fillRegFields() {
 	for _, ent := range []uint32{registry.IANAEnterpriseID, registry.IANAReversedEnterpriseID, registry.AntreaEnterpriseID} {
 		for id := 0; id < 32768; id++ {
 			ie, err := registry.GetInfoElementFromID(uint16(id), ent)
@@ -102,7 +106,6 @@ func RegistryFields() []ref.Field {
 		}
 		return regFields[i].ID < regFields[j].ID
 	})
-	return regFields
 }
 
 // NewCollectorPoolArgs is NewPoolArgs plus the user-registered string element declared with a
